@@ -51,6 +51,26 @@ func (w *World) applyTable(ds *Doc, op sim.Op, o *Obs) {
 		}
 		return
 	}
+	if op.K == "t.create" { // a table that is built first and put into the body later (CreateTable ... Body.AddElement)
+		t, err := ds.D.CreateTable(TableConfigOf(op, 0, 0))
+		o.Err = err
+		if err == nil && t != nil {
+			ds.Detached = append(ds.Detached, t)
+		}
+		return
+	}
+	if op.K == "t.attach" { // the oldest table still waiting goes into the body
+		if len(ds.Detached) == 0 || ds.D.Body == nil {
+			o.Skipped, o.Res = true, "skip"
+			return
+		}
+		t := ds.Detached[0]
+		ds.Detached = ds.Detached[1:]
+		ds.D.Body.AddElement(t)
+		ds.Tables = append(ds.Tables, t)
+		w.Stats.Probe("detached_table_attached")
+		return
+	}
 	t := ds.table(op.Int(0))
 	if t == nil {
 		o.Skipped, o.Res = true, "skip"
